@@ -107,7 +107,7 @@ def check(ctx):
                         ctx.ok("L1", "%s:%s await/call %s (may acquire %s) holding %s: ordered" %
                                (b.file_of(c.bb), c.line, tkey.rsplit("::", 2)[-2] if "{closure" in tkey else tkey.rsplit("::", 1)[-1],
                                 a[0].rsplit("::", 1)[1], sorted(x[0].rsplit("::", 1)[1] for x in held)))
-    ctx.floor(L1, "lock acquisition sites in the workspace", n_sites, 23)
+    ctx.floor(L1, "lock acquisition sites in the workspace", n_sites, 10)
     # L3
     rc = prog.must_body(RC)
     ins = rc.raw.get("inputs", [])
@@ -215,7 +215,7 @@ def check_nonce(ctx):
     for c in rcc.calls:
         if c.bb in rcc.live_blocks() and c.res and c.res.startswith("<async_lock::rwlock::RwLockWriteGuard<") and c.res.endswith("core::ops::deref::DerefMut>::deref_mut"):
             n += 1
-    ctx.floor(L4, "deref_mut of write guards in request_certificate", n, 11)
+    ctx.floor(L4, "deref_mut of write guards in request_certificate", n, 5)
 
 
 def check_registration(ctx):
